@@ -261,6 +261,17 @@ def run(run):
         ns, nl = dispatch_rules.check_dispatchers(run, F, E, 'C05.b')
         facts.drop(F)
         cfgmod.clear_cache()
+    # "exactly once" also for states built from injected bases, with and without callbacks of their own (witness w_inj): each phase
+    # callback and query() of each injection and of the state itself is invoked once -- what the state's own step `Head::X` resolves to
+    # when the state does not define X must be a library no-op, not an injection's X a second time (flattening shared with C15.a)
+    from rules import c15 as _c15
+    for v in facts.variants(run.tier):
+        F = facts.load('w_inj', '', v)
+        E = effects.Effects(F)
+        run.guard('injection multiplicities', _c15.one, run, F, E, {'query', 'preUpdate', 'update', 'postUpdate', 'preReact', 'react', 'postReact'}, 'C05.e', True)
+        facts.drop(F)
+        cfgmod.clear_cache()
+    run.floor('C05.e', 40)
     from gen import static_units
     run.guard('must not compile', static_units.must_not_compile, run, 'C05.d')
     run.floor('C05.a', 100)
